@@ -1014,6 +1014,23 @@ pub fn check(prop: &str, tier: &str) -> i32 {
     cov["all_interleavings_part"] = acov;
     let mut aok2 = true; let mut aexec2 = 0;
     if prop == "C04" { let (acov2, ok2, ex2, _) = all_part(&rep, prop, CutMode::EveryPoll, false, false, 6.0, 400.0); cov["all_interleavings_with_cutoff_part"] = acov2; aok2 = ok2; aexec2 = ex2; }
+    // thorough tier: cross-check of the state matching itself (the same unit explored in two search orders and by the bounded
+    // stateless search, in a separate pinned process): a mismatch is a machinery error, never a verdict
+    if th && prop == "C03" {
+        let mut lines = vec![];
+        for args in [["TM-B4", "1", "97", "2", "0", "lel", "0", "0", "2"], ["TM-B4", "1", "97", "2", "0", "fc", "1", "1", "1"], ["TM-B4", "1", "97", "2", "1", "lel", "0", "0", "1"]] {
+            let out = std::process::Command::new(std::env::current_exe().unwrap()).arg("sched-xcheck").args(args).env("XCHECK_S", "300").output();
+            match out {
+                Ok(o) => {
+                    let txt = String::from_utf8_lossy(&o.stdout).to_string();
+                    for l in txt.lines().filter(|l| l.contains("ALL fwd")) { lines.push(l.to_string()); }
+                    if o.status.code() != Some(0) { rep.engine_error(format!("state matching cross-check failed ({:?}): {}", args, txt.lines().last().unwrap_or(""))); }
+                }
+                Err(e) => rep.engine_error(format!("cannot run the state matching cross-check: {}", e)),
+            }
+        }
+        cov["state_matching_cross_check"] = json!({"what": "each unit explored by the explicit-state search in two different search orders and by the bounded stateless search: same number of distinct states, transitions, executions and outcomes in both orders, every outcome of the bounded search among those of the unbounded one", "results": lines});
+    }
     cov["evaluations"] = json!(c.executions + a1.runs + a1.cut_runs + aexec + aexec2);
     cov["exhaustive"] = json!(c.complete && c1 && aok && aok2);
     rep.finish("model_checking", cov, assumptions())
